@@ -35,14 +35,18 @@ func c19SendDuringExpansion(c c19Cfg, k, j int, o *Out) error {
 	var steps []string
 	n0, n1 := 0, 0
 	// first row: the idle consumer takes it and parks in the sink
-	w.emit(0, n0)
+	if ch, returned := w.emitWait(0, n0, c19Long); !returned {
+		return w.unexpected(c, append(steps, "em 0"), "T3: Emit on the empty channel did not return", []chan struct{}{ch}, o)
+	}
 	n0++
 	if !w.waitSink(c19Long) {
-		return fmt.Errorf("C19 T3: idle consumer did not pick up the first row")
+		return w.unexpected(c, append(steps, "E 0"), "T3: idle consumer did not pick up the first row", nil, o)
 	}
 	steps = append(steps, "E 0 ld rc")
 	for i := 0; i < c.cap; i++ {
-		w.emit(i%2, map[bool]int{true: n0, false: n1}[i%2 == 0])
+		if ch, returned := w.emitWait(i%2, map[bool]int{true: n0, false: n1}[i%2 == 0], c19Long); !returned {
+			return w.unexpected(c, append(steps, fmt.Sprintf("em %d", i%2)), "T3: Emit with room in the channel did not return", []chan struct{}{ch}, o)
+		}
 		if i%2 == 0 {
 			n0++
 		} else {
@@ -58,23 +62,26 @@ func c19SendDuringExpansion(c c19Cfg, k, j int, o *Out) error {
 	n0++
 	go func() { w.emit(0, k0); close(done) }()
 	if !gS.WaitArrived(c19Long) {
-		return fmt.Errorf("C19 T3: producer never reached expand_before_snapshot (is the verif hook commit present?)")
+		return w.unexpected(c, append(steps, "em 0"), "T3: producer never reached expand_before_snapshot", []chan struct{}{done}, o)
 	}
 	steps = append(steps, "em 0 sd 0 xb 0")
 	for i := 0; i < k; i++ {
 		w.sinkTok <- struct{}{}
 		if !w.waitSink(c19Long) {
-			return fmt.Errorf("C19 T3: consumer did not receive")
+			return w.unexpected(c, steps, "T3: consumer did not receive", []chan struct{}{done}, o)
 		}
 		steps = append(steps, "ld rc")
 	}
 	gS.Open()
 	if !gB.WaitArrived(c19Long) {
-		return fmt.Errorf("C19 T3: producer never reached expand_before_lock (cfg %s k=%d)", c, k)
+		return w.unexpected(c, steps, "T3: producer never reached expand_before_lock", []chan struct{}{done}, o)
 	}
 	steps = append(steps, "xr 0")
 	for i := 0; i < j; i++ {
-		w.emit(1, n1) // lands on the old channel, or (channel full) loses the CAS, retries and is dropped
+		// lands on the old channel, or (channel full) loses the CAS, retries and is dropped
+		if ch, returned := w.emitWait(1, n1, c19Long); !returned {
+			return w.unexpected(c, append(steps, "em 1"), "T3: Emit during the expansion did not return", []chan struct{}{ch, done}, o)
+		}
 		n1++
 		steps = append(steps, "E 1")
 	}
@@ -83,7 +90,7 @@ func c19SendDuringExpansion(c c19Cfg, k, j int, o *Out) error {
 	select {
 	case <-done:
 	case <-time.After(c19Long):
-		return fmt.Errorf("C19 T3: expanding Emit did not return")
+		return w.unexpected(c, steps, "T3: expanding Emit did not return", []chan struct{}{done}, o)
 	}
 	steps = append(steps, "FIN 0", w.obs())
 	// the consumer drains the current channel, one row per token
@@ -93,7 +100,7 @@ func c19SendDuringExpansion(c c19Cfg, k, j int, o *Out) error {
 		}
 		w.sinkTok <- struct{}{}
 		if !w.waitSink(c19Long) {
-			return fmt.Errorf("C19 T3: consumer stopped receiving while rows are queued")
+			return w.unexpected(c, steps, "T3: consumer stopped receiving while rows are queued", nil, o)
 		}
 	}
 	steps = append(steps, "DRAIN")
